@@ -13,6 +13,7 @@ from typing import (
     TypeVar,
 )
 
+import numpy as np
 import onnx_ir.passes.common as ir_passes_common
 
 import onnxscript.optimizer
@@ -652,6 +653,38 @@ _default_metadata_merger: metadata_merger.MetadataMerger = metadata_merger.Metad
 merge_metadata: bool = True
 
 
+def _same_constant(value1: ir.Value, value2: ir.Value) -> bool:
+    tensor1, tensor2 = value1.const_value, value2.const_value
+    if tensor1 is None or tensor2 is None:
+        return False
+    if tensor1.dtype != tensor2.dtype or tensor1.shape != tensor2.shape:
+        return False
+    return np.array_equal(tensor1.numpy(), tensor2.numpy())
+
+
+def _register_new_initializer(initializers, initializer: ir.Value) -> ir.Value | None:
+    """Registers an initializer created by a rewrite without clobbering one that is in use.
+
+    If an initializer of the same name is already registered (e.g. by a previous
+    application of the rule), it is reused when it holds the same constant and is then
+    returned; otherwise the new initializer is registered under a fresh name.
+    """
+    base_name = initializer.name
+    candidate = base_name
+    suffix = 0
+    while candidate in initializers:
+        existing = initializers[candidate]
+        if existing is initializer:
+            return None
+        if _same_constant(existing, initializer):
+            return existing
+        suffix += 1
+        candidate = f"{base_name}_{suffix}"
+    initializer.name = candidate
+    initializers[candidate] = initializer
+    return None
+
+
 class RewriteRuleSet:
     def __init__(self, rules: Sequence[RewriteRule], *, commute: bool = False) -> None:
         if not rules:
@@ -711,12 +744,14 @@ class RewriteRuleSet:
                         continue
                     initializers = graph_or_function.initializers
                     for initializer in delta.new_initializers:
-                        if initializer.name in initializers:
+                        existing = _register_new_initializer(initializers, initializer)
+                        if existing is not None:
                             if verbose:
-                                print(f"Initializer {initializer.name} already exists.")
-                            continue
-                    for initializer in delta.new_initializers:
-                        initializers[initializer.name] = initializer  # type: ignore[index]
+                                print(f"Initializer {existing.name} already exists.")
+                            for new_node in delta.new_nodes:
+                                for index, node_input in enumerate(new_node.inputs):
+                                    if node_input is initializer:
+                                        new_node.replace_input_with(index, existing)
                 # TODO: This does not yet handle the problem of determining the correct insertion point
                 # for inserted nodes in the case of patterns with multiple output-nodes. The following
                 # is sufficient for patterns with a single output-node "node", which can serve as the
